@@ -4,4 +4,10 @@ go 1.24
 
 require github.com/awalterschulze/goderive v0.0.0
 
+require (
+	github.com/kisielk/gotool v1.0.0 // indirect
+	golang.org/x/sys v0.5.0 // indirect
+	golang.org/x/tools v0.6.0 // indirect
+)
+
 replace github.com/awalterschulze/goderive => /repo
